@@ -14,6 +14,7 @@ def delayAt (init maxD : Rat) : Nat → Rat
 structure DlSt where
   k : Nat := 0            -- retries with back-off scheduled since the last successful reply
   inErr : Bool := false   -- the event being handled is a failed fetch/offset request
+  prev : Option Rat := none  -- the previous back-off delay of this run of failures
   bad : Bool := false
   deriving DecidableEq, Repr
 
@@ -22,19 +23,27 @@ instance : HasBad DlSt := ⟨DlSt.bad⟩
 /-- equal up to the rounding of the implementation's floating point arithmetic (relative 1e-9) -/
 def closeTo (a b : Rat) : Bool := decide ((if a ≤ b then b - a else a - b) * 1000000000 ≤ 1 + (if 0 ≤ b then b else -b))
 
+/-- the delays of one run of failures GROW up to the maximum, whatever the factor is: never shorter
+    than the one before, strictly longer while below the maximum (and positive) -/
+def grows (maxD : Rat) (prev : Option Rat) (d : Rat) : Bool :=
+  match prev with
+  | none => true
+  | some p => decide (p ≤ d) && (decide (p < d) || decide (maxD ≤ d) || decide (p ≤ 0) || closeTo d maxD)
+
 def dlStep (init maxD : Rat) (m : DlSt) : Item → DlSt
-  | .ev (.fetchOk _ _) => { m with k := 0, inErr := false }
-  | .ev (.offsetOk _ _) => { m with k := 0, inErr := false }
-  | .ev (.offsetFetchOk _ _) => { m with k := 0, inErr := false }
+  | .ev (.fetchOk _ _) => { m with k := 0, inErr := false, prev := none }
+  | .ev (.offsetOk _ _) => { m with k := 0, inErr := false, prev := none }
+  | .ev (.offsetFetchOk _ _) => { m with k := 0, inErr := false, prev := none }
   | .ev (.fetchErr _ _ _) => { m with inErr := true }
   | .ev (.offsetErr _ _ _) => { m with inErr := true }
   | .ev (.offsetFetchErr _ _ _) => { m with inErr := true }
   | .ev _ => { m with inErr := false }
+  | .ob (.probe _ _) => { m with inErr := false }
   | .ob (.setTimer .retry d) =>
     -- after a failed request: the back-off delay, nothing else.  Otherwise: the immediate refetch (0), or
     -- (a reply whose iteration raised part-way is handled as a failure) the back-off delay.
-    if !m.inErr && d == 0 then (if delayAt init maxD m.k == 0 then { m with k := m.k + 1 } else m)
-    else if closeTo d (delayAt init maxD m.k) then { m with k := m.k + 1 }
+    if !m.inErr && d == 0 then m
+    else if closeTo d (delayAt init maxD m.k) && (decide (maxD < init) || grows maxD m.prev d) then { m with k := m.k + 1, prev := some d }
     else { m with bad := true }
   | _ => m
 
@@ -123,6 +132,13 @@ def resetOk (reset : Option Int) (tr : List Item) : Bool := accepts (rsStep rese
 
 /-! ### Buffer growth: ×16 up to 1 MiB, ×2 after, capped; fails only at the maximum; never shrinks -/
 
+/-- the growth rule as the property states it (sixteen-fold up to 1 MiB, then doubling, capped) -/
+def growSpec (buf : Nat) (max : Option Nat) : Option Nat :=
+  let next := if buf ≤ 2 ^ 20 then buf * 16 else buf * 2
+  match max with
+  | none => some next
+  | some m => if buf < m then some (min next m) else none
+
 structure GrSt where
   buf : Nat
   credit : Nat := 0      -- too-small answers not yet reflected in a fetch request
@@ -135,8 +151,8 @@ def grStep (max : Option Nat) (m : GrSt) : Item → GrSt
   | .ev (.fetchOk _ r) => if r.tail == .small then { m with credit := m.credit + 1 } else m
   | .ob (.fetch _ _ mb) =>
     if mb == m.buf then m
-    else if m.credit > 0 && grow m.buf max == some mb then { m with buf := mb, credit := m.credit - 1 } else { m with bad := true }
-  | .ob (.startFired (.err .tooSmall)) => if m.credit > 0 && (grow m.buf max).isNone then m else { m with bad := true }
+    else if m.credit > 0 && growSpec m.buf max == some mb then { m with buf := mb, credit := m.credit - 1 } else { m with bad := true }
+  | .ob (.startFired (.err .tooSmall)) => if m.credit > 0 && (growSpec m.buf max).isNone then m else { m with bad := true }
   | _ => m
 
 def growthOk (init : Nat) (max : Option Nat) (tr : List Item) : Bool := accepts (grStep max) { buf := init } tr
